@@ -156,7 +156,9 @@ def run_gv(spec):
             return Out(nontrivial=False, classes=["skipped"])
         ph.nac_params = {"born": Z, "dielectric": eps, "factor": 14.4, "method": spec["nac"]}
     Lp = prim.cell
-    q = np.array(spec["q"])
+    # q on a 1e-4 grid: a q-point closer than the symmetry tolerance (1e-5) to a special point is treated by phonopy AS that special
+    # point when group velocities are symmetrised, which is exact only in the limit (deviation = curvature x distance)
+    q = np.round(np.array(spec["q"], dtype=float), 4)
     if np.linalg.norm(np.linalg.inv(Lp) @ (q - np.rint(q))) < 2e-2:
         return Out(nontrivial=False, classes=["skipped_near_gamma"])
     # domain: group velocities are symmetrised with the primitive cell's point group; a supercell that lowers the point
